@@ -51,6 +51,16 @@ for pid in sorted(md.CLAIMED):
         else:
             c["text"] = c["text"] + "  Round 7: " + text + "."
         c["technique"] = c["technique"] + "; " + tech
+    add8 = getattr(md, "ADDENDA_R8", {}).get(pid)
+    if add8:
+        ref, text, tech = add8
+        c["design_ref"] = c["design_ref"] + ", " + ref
+        if "  Not decided:" in c["text"]:
+            head, tail = c["text"].split("  Not decided:", 1)
+            c["text"] = head + "  After round 7: " + text + ".  Not decided:" + tail
+        else:
+            c["text"] = c["text"] + "  After round 7: " + text + "."
+        c["technique"] = c["technique"] + "; " + tech
     checks.append({
         "property_id": pid,
         "quick_cmd": "./check %s --tier quick" % pid,
